@@ -194,6 +194,9 @@ class Env:
         self.actor_parent = {}    # actor -> ('task', scope key) | ('act', caller actor)
         self.names_used = {}
         self.cancel_calls = {}    # task instance name -> [(time, token, status at call, n)]
+        #: CancelTask objects seen by a task's own code in the current time step (kept only
+        #: until the step ends: id() of a dead object may be handed out again)
+        self.cancel_delivered = {}
         self.await_results = {}   # task instance name -> [(awaiter, kind, ident)]
         self.returned = {}        # task instance name -> repr of what its payload returned
         self.awaiting = {}        # key -> (awaiter, task instance name, task, since): in `await task`
@@ -309,6 +312,8 @@ class Env:
         if self.is_own(exc):
             return exc_name(exc)
         if isinstance(exc, CancelTask):
+            if ctx.task is not None and exc.subject is ctx.task:
+                self.cancel_delivered.setdefault(ctx.name, {})[id(exc)] = exc
             if ctx.task is None or exc.subject is not ctx.task:
                 sess.violation('foreign-canceltask',
                                '%s observed CancelTask of another task at step %s' % (
@@ -1435,6 +1440,19 @@ class LifecycleMonitor:
                             'task %s was %s when cancelled at %r; at the end of that time step '
                             'it is neither done nor has the cancellation been raised in it'
                             % (name, status, when))
+            # every cancel() of a suspended task is a cancellation of its own: a task that
+            # survives the step (clean-up that takes time) has been struck once per call
+            here = [call for call in calls if call[0] == prev_time and call[2] == 'RUNNING']
+            if len(here) > 1 and not task.done:
+                delivered = len(env.cancel_delivered.get(name, ()))
+                sess.stats['c06_repeated_cancels_judged'] += 1
+                if 1 <= delivered < len(here):
+                    sess.violation(
+                        'c06:cancel-not-effective-in-time-step',
+                        'task %s was cancelled %d times at %r while suspended; it is still '
+                        'unwinding at the end of that time step but only %d cancellation(s) '
+                        'were raised in it' % (name, len(here), prev_time, delivered))
+        env.cancel_delivered.clear()
 
     def finish(self):
         env = self.env
